@@ -64,4 +64,11 @@ theorem sampleFile_entries :
     Hts.Spec.Fasta.blankLines, Hts.Spec.Fasta.LF]
   simp [sampleRec1, sampleRec2, Rec.entry, Rec.headerLine, Hts.Spec.Fasta.Eol.bytes]
 
+/-- the index record of `s1` -/
+def exRec : Record := ⟨[115, 49], 8, 11, 4, 6⟩
+
+theorem exRec_small (p : Nat) (hp : p ≤ 8) : exRec.position p < 2 ^ 63 := by
+  simp only [Record.position, exRec, Nat.reduceEqDiff, if_false]
+  omega
+
 end Hts.Lemmas.Fai
